@@ -30,8 +30,7 @@ package adapter
 
 //@ func (p *IBCParser) ParsePayload(memoBz) (payload, err)
 //@   requires[base] p != nil
-//   (also verified for C06/C09: nothing may happen to the decoded action list between decoding and dispatch - frame)
-//@   ensures[base,C15,C06,C09] err == nil ==> payloadOK(payload)
+//@   ensures[base,C15] err == nil ==> payloadOK(payload)
 
 // ParsePacket: on success the coin is the unprefixed (Noble-side) denomination, which is native, with
 // the amount the ICS-20 data states; "not for orbiter" is reported only for non-ICS-20 data or a
